@@ -210,6 +210,12 @@ CHECKS = {'C01': ('exploration',
 
 # additions of round 6, appended to the level text
 ROUND7 = {
+    "C07": "repeated leaves in formulas, event leaves inside when groups.",
+    "C09": "long cascades of internal events (above 1000) for one external event.",
+    "C13": "files whose lines parser and message formatter number differently.",
+    "C15": "failing LLM calls at llm_params sites, a context variable in a predefined message with a canary instance.",
+    "C19": "vector components that single precision cannot represent.",
+    "C20": "empty and fixed-text replies on threads.",
     "C01": "the not-allowed result of a rail action (None / 0 / empty string), 70-200 other conversations between two turns.",
     "C02": "empty user messages and event-started turns as turn kinds.",
     "C11": "non-finite floats in the state, open scopes that list an ended flow.",
